@@ -29,7 +29,12 @@ def _expand(task):
     nid, path, key = task
     res = []
     first = True
+    known = json.loads(key)
     for ai, a in enumerate(_ALPHA):
+        # the state is a function of the path (checked on the first replay),
+        # so a disabled action needs no replay
+        if not first and not _ENABLED(known, a):
+            continue
         _AD.reset()
         for pi in path:
             _AD.apply(_ALPHA[pi])
@@ -38,6 +43,8 @@ def _expand(task):
             first = False
             if canon(st) != key:
                 return ('NONDET', nid, st)
+        elif canon(st) != key:
+            return ('NONDET', nid, st)
         if not _ENABLED(st, a):
             continue
         out = _AD.apply(a)
@@ -53,6 +60,8 @@ def explore(factory, alphabet, enabled, workers=None, max_states=200000,
     ad = factory()
     ad.reset()
     init = ad.project()
+    if hasattr(ad, 'close'):
+        ad.close()         # no live harness threads while the pool forks
     nodes = [init]
     index = {canon(init): 0}
     paths = [[]]
